@@ -700,6 +700,10 @@ def _classify_id(call: ast.Call, stmt: ast.stmt, fnode: Optional[ast.AST]) -> Tu
         return True, f"identity `{var}` is only compared / used as a visited key"
     if isinstance(p, ast.FormattedValue):
         return _guard_correlated(call, stmt, fnode)
+    # the same text built with `"...{}".format(..., id(x))`, `"..." % id(x)` or `"..." + str(id(x))`
+    if (isinstance(p, ast.Call) and isinstance(p.func, ast.Attribute) and p.func.attr == "format" and call in p.args) or (
+            isinstance(p, ast.Call) and dotted(p.func) == "str" and isinstance(parent(p), ast.BinOp)) or (isinstance(p, ast.BinOp) and isinstance(p.op, ast.Mod)):
+        return _guard_correlated(call, stmt, fnode)
     if isinstance(p, ast.Tuple):
         q = parent(p)
         while q is not None and not isinstance(q, ast.stmt):
